@@ -537,6 +537,7 @@ func (na *nilAnalysis) step(fn *ssa.Function) bool {
 	changed := false
 	var fails []nilFail
 	for _, site := range na.sites[fn] {
+		checkBudget()
 		if _, isDefer := site.instr.(*ssa.Defer); isDefer && site.call != nil {
 			// deferred call: judged where it is registered
 		}
